@@ -78,6 +78,9 @@ pub struct Scn {
     pub no_continue: bool,
     /// the pool is configured with this `max_idle_per_host` (a legal corner: 0 keeps nothing idle)
     pub max_idle: Option<usize>,
+    /// environment event: the task that hands a released connection back to the pool is dropped before it has
+    /// finished (the runtime it was spawned on shuts down) — at any scheduling point
+    pub drop_handback: bool,
 }
 
 impl Default for ChunkBody {
@@ -109,7 +112,12 @@ fn expected_for(s: &ReqSpec) -> Resp {
     }
 }
 
-async fn do_request(mut svc: ClientSvc, spec: ReqSpec, obs: Obs) {
+async fn do_request(svc: ClientSvc, spec: ReqSpec, obs: Obs) {
+    do_request_gated(svc, spec, obs, None).await
+}
+
+/// `head` is opened as soon as the response head has arrived (the body is still to be read).
+async fn do_request_gated(mut svc: ClientSvc, spec: ReqSpec, obs: Obs, head: Option<Gate>) {
     let uri = if spec.root_path { format!("http://{}.test/?q={}", spec.origin, spec.id) } else { format!("http://{}.test/r{}?q={}", spec.origin, spec.id, spec.id) };
     let mut b = http::Request::builder()
         .method(if spec.post { "POST" } else { "GET" })
@@ -128,6 +136,9 @@ async fn do_request(mut svc: ClientSvc, spec: ReqSpec, obs: Obs) {
         Ok(()) => svc.call(req).await,
         Err(e) => Err(e),
     };
+    if let Some(g) = &head {
+        g.open();
+    }
     let out = match r {
         Err(e) => Err(format!("request: {e}")),
         Ok(mut resp) => {
@@ -270,14 +281,22 @@ pub fn run_one(scn: &Scn, schedule: &[usize]) -> Execution<Outcome> {
         });
     }
     let mut task_ids = vec![];
+    let mut prev_head: Option<Gate> = None;
     for spec in &scn.concurrent {
         let svc = svc.clone();
         let obs = obs.clone();
         let start = start.clone();
         let spec = spec.clone();
+        // chained: a request is issued when the previous one's response HEAD has arrived (its body is still unread)
+        let wait_for = if scn.drop_handback { prev_head.clone() } else { None };
+        let my_head = Gate::new();
+        prev_head = Some(my_head.clone());
         let tid = s.spawn(&format!("req{}", spec.id), async move {
             start.wait().await;
-            do_request(svc, spec, obs).await;
+            if let Some(g) = wait_for {
+                g.wait().await;
+            }
+            do_request_gated(svc, spec, obs, Some(my_head)).await;
         });
         task_ids.push(tid);
     }
@@ -293,6 +312,14 @@ pub fn run_one(scn: &Scn, schedule: &[usize]) -> Execution<Outcome> {
                 s.cancel_task(tid);
             });
         }
+    }
+    if scn.drop_handback {
+        let is_handback = |n: &str| n.starts_with("lib:") && n.contains("pool/mod.rs");
+        s.env("drop-hand-back-task", false, move |s| s.find_live_task(is_handback).is_some(), move |s| {
+            if let Some(t) = s.find_live_task(is_handback) {
+                s.cancel_task(t);
+            }
+        });
     }
     drop(svc);
     s.run();
@@ -364,7 +391,7 @@ fn r(id: u32, origin: char, h2: bool, post: bool, chunks: u8) -> ReqSpec {
 }
 
 pub fn scenarios(thorough: bool) -> Vec<Scn> {
-    let mk = |name: &str, prelude: Vec<ReqSpec>, concurrent: Vec<ReqSpec>, bufsize: usize, cancellable: bool| Scn { name: name.into(), prelude, concurrent, bufsize, cancellable, h1_only_client: false, no_continue: false, max_idle: None };
+    let mk = |name: &str, prelude: Vec<ReqSpec>, concurrent: Vec<ReqSpec>, bufsize: usize, cancellable: bool| Scn { name: name.into(), prelude, concurrent, bufsize, cancellable, h1_only_client: false, no_continue: false, max_idle: None, drop_handback: false };
     let mut v = vec![
         mk("h1-2-concurrent", vec![], vec![r(1, 'a', false, true, 2), r(2, 'a', false, true, 1)], 1024, true),
         mk("h1-reuse-after-prelude", vec![r(9, 'a', false, true, 1)], vec![r(1, 'a', false, true, 2), r(2, 'a', false, false, 0)], 1024, true),
@@ -401,12 +428,43 @@ pub fn scenarios(thorough: bool) -> Vec<Scn> {
     // and every one of them is served; HTTP/1.1 requests are served by connections of their own
     v.push(Scn { max_idle: Some(0), ..mk("h2-2-concurrent-max-idle-0", vec![], vec![r(1, 'a', true, true, 1), r(2, 'a', true, true, 1)], 1024, true) });
     v.push(Scn { max_idle: Some(0), ..mk("h1-after-prelude-max-idle-0", vec![r(9, 'a', false, true, 1)], vec![r(1, 'a', false, true, 1), r(2, 'a', false, false, 0)], 1024, false) });
+    // the hand-back task of a released HTTP/1.1 connection is dropped at any point (its runtime goes away) while the
+    // response is still being read: the connection must not come back to the pool in use
+    v.push(Scn { drop_handback: true, ..mk("h1-hand-back-task-dropped", vec![r(9, 'a', false, true, 2)], vec![r(1, 'a', false, true, 2), r(2, 'a', false, true, 1)], 1024, false) });
+    v.push(Scn { drop_handback: true, ..mk("h1-hand-back-task-dropped-small-buffer", vec![], vec![r(1, 'a', false, true, 2), r(2, 'a', false, true, 2)], 16, false) });
     if thorough {
         v.push(mk("h1-3-concurrent", vec![], vec![r(1, 'a', false, true, 1), r(2, 'a', false, true, 2), r(3, 'a', false, false, 0)], 1024, true));
         v.push(mk("h2-3-concurrent", vec![], vec![r(1, 'a', true, true, 1), r(2, 'a', true, true, 2), r(3, 'a', true, false, 0)], 1024, true));
         v.push(mk("mixed-3-two-origins", vec![r(9, 'a', false, true, 1)], vec![r(1, 'a', false, true, 1), r(2, 'b', true, true, 2), r(3, 'a', true, true, 1)], 1024, true));
     }
     v
+}
+
+/// The scenarios in which the hand-back task of a released HTTP/1.1 connection is dropped at any scheduling point,
+/// explored for C02: no request may be sent on a connection whose previous response is still being read (the real
+/// client, real hyper connections; a request that meets a busy connection fails with hyper's "not ready").
+/// Returns (executions, violations).
+pub fn handback_drop_runs(thorough: bool) -> (u64, Vec<(String, String, serde_json::Value)>) {
+    let scns: Vec<Scn> = scenarios(thorough).into_iter().filter(|s| s.drop_handback).collect();
+    let mut n = 0;
+    let mut out = vec![];
+    for scn in &scns {
+        let b = if scn.bufsize < 64 { 1 } else { 2 };
+        let mut found: Vec<(String, String, Vec<usize>, Vec<String>)> = vec![];
+        let stats = explore(b, 200_000, |prefix| run_one(scn, prefix), |prefix, _d, ex| {
+            for (sub, msg) in &ex.outcome.viols {
+                if !found.iter().any(|f| f.0 == *sub) {
+                    found.push((sub.clone(), msg.clone(), prefix.to_vec(), ex.outcome.schedule.clone()));
+                }
+            }
+            true
+        });
+        n += stats.executions;
+        for (sub, msg, prefix, sched) in found {
+            out.push((format!("e2e {sub} scenario={}", scn.name), format!("{msg}; scenario {} schedule {:?}", scn.name, sched), json!({"engine":"schedmc-c01","scenario":scn.name,"schedule":prefix})));
+        }
+    }
+    (n, out)
 }
 
 pub fn run(args: &Args) -> i32 {
